@@ -131,15 +131,20 @@ inline std::string show(const cctz::time_zone::absolute_lookup& al) {
 inline void run_ops(const std::vector<Op>& ops, Obs* obs) {
   cctz::time_zone cur = cctz::utc_time_zone();
   const int slot = tid_slot();
+  (void)slot;
   for (const Op& op : ops) {
     VP_POINT(VP_OP_BEGIN, nullptr);
     std::ostringstream o;
     switch (op.k) {
       case Op::LOAD: {
         cctz::time_zone tz;
+#ifndef VERIF_FREE_RUNNING
         world().cur_load[slot] = op.name;
+#endif
         bool ok = cctz::load_time_zone(op.name, &tz);
+#ifndef VERIF_FREE_RUNNING
         world().cur_load[slot] = "";
+#endif
         o << "load(" << op.name << ")=" << ok << " utc=" << (tz == cctz::utc_time_zone()) << " name=" << tz.name();
         obs->zones.push_back(tz);
         obs->znames.push_back(op.name);
